@@ -1,9 +1,16 @@
 ----------------------------- MODULE OrderTrace -----------------------------
 (***************************************************************************)
-(* C16: (a) the laws of a strict weak order for Order!Before over a finite *)
-(* domain of events; (b) the truth table of the real msg_is_before and     *)
-(* q_elem_is_before over the same domain (harness/orderdrv.c, every        *)
-(* non-content field varied) must equal Before row by row.                 *)
+(* C16 bound to the code: harness/orderdrv.c dumps the truth table of the  *)
+(* real msg_is_before and q_elem_is_before over a finite domain of events  *)
+(* (one trace line per row), evaluating every pair with all the fields the *)
+(* order must not depend on varied (address, next, dest, m_seq, non-ANTI   *)
+(* flag bits): an entry is 0/1, or 2 when the answers differ.              *)
+(*                                                                         *)
+(* Verdict layer (the property itself, on the table of the code): no entry *)
+(* is 2 (content only), and each table is irreflexive, asymmetric,         *)
+(* transitive, with transitive incomparability.  The property does not     *)
+(* prescribe WHICH strict weak order: equality with Order!Before (the      *)
+(* order SeqSim uses; its laws are checked too) is a divergence counter.   *)
 (***************************************************************************)
 EXTENDS Order, TLC, Json, IOUtils, FiniteSets
 
@@ -12,22 +19,43 @@ Dom == TraceLog[1].events
 N == Len(Dom)
 DomSet == {Dom[i] : i \in 1..N}
 
-VARIABLES l, bad
+VARIABLES l, bad, tabM, tabQ, div, done
 Line == TraceLog[l]
 B2I(b) == IF b THEN 1 ELSE 0
 
-TInit == l = 2 /\ bad = <<>> /\ TLCSet(1, 0) /\ TLCSet(2, <<>>)
+TInit == l = 2 /\ bad = <<>> /\ tabM = <<>> /\ tabQ = <<>> /\ div = 0 /\ done = FALSE /\ TLCSet(1, 0) /\ TLCSet(2, <<>>) /\ TLCSet(3, 0)
 TRow ==
-  /\ l <= Len(TraceLog) /\ bad = <<>> /\ Line.e = "Row"
-  /\ l' = l + 1
+  /\ l <= Len(TraceLog) /\ bad = <<>> /\ Line.e = "Row" /\ ~done
+  /\ l' = l + 1 /\ UNCHANGED done
+  /\ tabM' = Append(tabM, Line.mb) /\ tabQ' = Append(tabQ, Line.qb)
   /\ LET i == Line.i
+         dep == {j \in 1..N : Line.mb[j] = 2 \/ Line.qb[j] = 2}
          wrongM == {j \in 1..N : Line.mb[j] # B2I(Before(Dom[i], Dom[j]))}
          wrongQ == {j \in 1..N : Line.qb[j] # B2I(Before(Dom[i], Dom[j]))} IN
-     bad' = IF wrongM = {} /\ wrongQ = {} THEN <<>>
-            ELSE <<[p |-> "C16", w |-> "order of the implementation differs from the content-based order (or depends on a non-content field)", at |-> l]>>
-TSpec == TInit /\ [][TRow]_<<l, bad>>
+     /\ div' = div + Cardinality(wrongM) + Cardinality(wrongQ)
+     /\ bad' = IF dep = {} /\ Line.i = Len(tabM) + 1 /\ Len(Line.mb) = N /\ Len(Line.qb) = N THEN <<>>
+               ELSE <<[p |-> "C16", w |-> "the order of two events depends on a field that is not content (address, destination, sequence number, processed/identity bits of the flag word)", at |-> l]>>
 
+\* the laws, on a table of the code
+Irrefl(T) == \A i \in 1..N : T[i][i] = 0
+Asym(T) == \A i \in 1..N : \A j \in 1..N : ~(T[i][j] = 1 /\ T[j][i] = 1)
+Trans(T) == \A i \in 1..N : \A j \in 1..N : T[i][j] = 1 => \A k \in 1..N : T[j][k] = 1 => T[i][k] = 1
+Inc(T, i, j) == T[i][j] = 0 /\ T[j][i] = 0
+IncTrans(T) == \A i \in 1..N : \A j \in 1..N : Inc(T, i, j) => \A k \in 1..N : Inc(T, j, k) => Inc(T, i, k)
+LawChecks(T, name) ==
+  << <<Irrefl(T), name \o " is not irreflexive">>, <<Asym(T), name \o " is not asymmetric">>, <<Trans(T), name \o " is not transitive">>,
+     <<IncTrans(T), "incomparability under " \o name \o " is not transitive">> >>
+TLaws ==
+  /\ l = Len(TraceLog) + 1 /\ bad = <<>> /\ ~done /\ Len(tabM) = N
+  /\ done' = TRUE /\ UNCHANGED <<l, tabM, tabQ, div>>
+  /\ LET f == SelectSeq(LawChecks(tabM, "msg_is_before") \o LawChecks(tabQ, "q_elem_is_before"), LAMBDA c : ~c[1]) IN
+       bad' = [i \in 1..Len(f) |-> [p |-> "C16", w |-> f[i][2], at |-> l - 1]]
+TSpec == TInit /\ [][TRow \/ TLaws]_<<l, bad, tabM, tabQ, div, done>>
+
+\* the reference order itself (Order!Before, used by SeqSim) satisfies the laws and is total on content
 Laws == StrictWeakOrder(DomSet) /\ IncompIsEqualContent(DomSet)
-Progress == TLCSet(1, IF l > TLCGet(1) THEN l ELSE TLCGet(1)) /\ (bad # <<>> => TLCSet(2, bad))
-Post == PrintT(<<"RESULT", TLCGet(1) - 1, Len(TraceLog), TLCGet(2)>>) /\ PrintT(<<"LAWS", Laws, N>>)
+\* the evaluation of the laws counts as one more line to consume (a run that never evaluates them is not accepted)
+Pos == l + B2I(done)
+Progress == TLCSet(1, IF Pos > TLCGet(1) THEN Pos ELSE TLCGet(1)) /\ (bad # <<>> => TLCSet(2, bad)) /\ TLCSet(3, div)
+Post == PrintT(<<"RESULT", TLCGet(1) - 1, Len(TraceLog) + 1, TLCGet(2)>>) /\ PrintT(<<"LAWS", Laws, N>>) /\ PrintT(<<"DIVERGENCES", TLCGet(3)>>)
 =============================================================================
